@@ -1,7 +1,7 @@
 (* Properties/C09.v — pinned statements for C09 "a broken, corrupt or read-only cache never breaks or
    falsifies a build".  Model: Model/ReqSM.v (the code after the S5 fix); proofs: Proofs/ReqSM.v. *)
 From Coq Require Import List NArith Bool.
-From Sccache Require Import Base.Sx Model.Stats Model.ReqSM Proofs.ReqSM.
+From Sccache Require Import Base.Sx Model.Stats Model.ReqSM Model.ReqSMExt Proofs.ReqSM.
 Import ListNotations.
 Local Open Scope N_scope.
 
@@ -74,6 +74,26 @@ Theorem C09_repopulates :
 Proof. exact repopulates. Qed.
 Print Assumptions C09_repopulates.
 
+(* The result key a preprocessor-cache entry FILE names is untrusted: an arbitrary byte string.  If it is not of the
+   form `hash_key` produces ([wf_result_key]: 64 lower-case hexadecimal digits) the entry is never used for a
+   lookup (so the key never becomes a path), the cache still holds only compiler-produced entries, and every
+   request — for every fault assignment — gets the compiler's own result: a miss that recompiles (and, by
+   C09_repopulates, re-populates). *)
+Theorem C09_untrusted_result_key_is_a_miss :
+  forall (w : world) (st : cstate) (t : N) (f : faults) (cl : req_class) (cc : cache_control)
+         (pk k : key) (m : N),
+    consistent w -> Inv w st -> sane (w t) -> f_outdir_ok f = true -> calm f (w t) ->
+    wf_result_key k = false ->
+    pp_read f pk (forge_pp pk k m st) = None
+    /\ Inv w (forge_pp pk k m st)
+    /\ transparent (w t) (snd (fst (request f cl cc (w t) (forge_pp pk k m st)))).
+Proof.
+  intros w st t f cl cc pk k m HC HI HS HO HCalm Hk. split.
+  - apply forge_malformed_not_read; exact Hk.
+  - apply malformed_result_key_transparent; assumption.
+Qed.
+Print Assumptions C09_untrusted_result_key_is_a_miss.
+
 (* ---------- non-vacuity ---------- *)
 
 Definition worst : faults :=
@@ -142,4 +162,19 @@ Example C09_panicking_put_is_a_write_error :
   snd (request {| f_ppget := PFNone; f_ppupd := WNone; f_ppput := WNone; f_get := GNone; f_put := WPanic; f_outdir_ok := true |}
                QCompile CCDefault (demo_oracle 0) empty_cache)
   = [[ICompileRequests]; [IExecuted]; [ICompilation; IMiss {| l_lang := 0; l_adv := 0 |}]; [IWriteError]].
+Proof. vm_compute. reflexivity. Qed.
+
+(* (4) keys an entry file may name: the empty string, "../x", an absolute path are malformed; a digest is not *)
+Example C09_malformed_keys :
+  wf_result_key [] = false /\ wf_result_key [46; 46; 47; 120] = false   (* "../x" *)
+  /\ wf_result_key [47; 120] = false   (* "/x" *) /\ wf_result_key (repeat 65 64) = false
+  /\ wf_result_key (repeat 97 64) = true.
+Proof. vm_compute. repeat split. Qed.
+
+(* a forged entry with the empty key in front of a populated cache: the request preprocesses, hits the real entry,
+   rewrites the forged one *)
+Example C09_forged_entry_is_rewritten :
+  let st := fst (fst (request no_faults QCompile CCDefault (demo_oracle 2) empty_cache)) in
+  let '(st', r, _) := request no_faults QCompile CCDefault (demo_oracle 2) (forge_pp [2] [] 7 st) in
+  (r_client r, r_pp_runs r, r_cc_runs r, kv_get [2] (cs_pp st')) = (CFinished 0 [1; 2] [2; 2], 1, 0, Some (PGood [2; 2] 7)).
 Proof. vm_compute. reflexivity. Qed.
